@@ -652,7 +652,8 @@ func baseNewProxy(L *LState) int {
 	if L.Get(1) == LTrue {
 		L.SetMetatable(ud, L.NewTable())
 	} else if d, ok := L.Get(1).(*LUserData); ok {
-		L.SetMetatable(ud, L.GetMetatable(d))
+		// Lua 5.1 luaB_newproxy shares the raw metatable (lua_getmetatable), not its __metatable field
+		L.SetMetatable(ud, L.metatable(d, true))
 	}
 	L.Push(ud)
 	return 1
